@@ -118,6 +118,20 @@ fn exercise(e: &str) -> Value {
         }
         let _ = wax::any([wax::any([e]), wax::any([glob.clone()])]).map(|any| any.is_match("a/b"));
     });
+    op!("any of no patterns", {
+        // a combinator of nothing, queried, matched and passed on to further combinators (alone, next to this
+        // input, nested twice)
+        let nothing = || wax::any(Vec::<&str>::new());
+        if let Ok(any) = nothing() {
+            let _ = queries(&any);
+            let _ = any.is_match("");
+            let _ = any.is_match("a");
+        }
+        let _ = wax::any([nothing()]).map(|any| any.is_match("a"));
+        let _ = wax::any([nothing(), wax::any([glob.clone()])]).map(|any| (queries(&any), any.is_match("a/b")));
+        let _ = wax::any([wax::any([nothing()]), wax::any([e])]).map(|any| any.is_match(""));
+        let _ = wax::any([""]).map(|any| (queries(&any), any.is_match("")));
+    });
     op!("not/walk programs", {
         let _ = wax::walk::verif_negation_patterns(e);
         let _ = glob.verif_walk_component_patterns();
